@@ -191,6 +191,39 @@ def check_traversal(ast, src, chosen_sets, case, st):
         vis.visit(ast)
         if exp != counts:
             fail("traversal", case, src, "second use of the same visitor: %r vs %r" % (counts, exp), "selective-visit")
+    # visitor class hierarchies: A(NodeVisitor) intercepts S1, B(A) adds/overrides S2,
+    # C(B) adds nothing; instances are used in the order A, B, A, C, B so that
+    # anything cached for one class would show in another
+    if len(chosen_sets) >= 2:
+        s1, s2 = chosen_sets[0], chosen_sets[1]
+        log = []
+
+        def mk2(owner, c):
+            def m(self, node):
+                log.append((owner, c, type(node).__name__))
+                c_ast.NodeVisitor.generic_visit(self, node)
+
+            return m
+
+        A = type("A", (c_ast.NodeVisitor,), {"visit_" + c: mk2("A", c) for c in s1})
+        B = type("B", (A,), {"visit_" + c: mk2("B", c) for c in s2})
+        C = type("C", (B,), {})
+
+        def expected(kind):
+            out = []
+            for x in acc:
+                nm = type(x).__name__
+                if kind != "A" and nm in s2:
+                    out.append(("B", nm, nm))
+                elif nm in s1:
+                    out.append(("A", nm, nm))
+            return out
+
+        for kind, cls in (("A", A), ("B", B), ("A", A), ("C", C), ("B", B)):
+            del log[:]
+            cls().visit(ast)
+            if log != expected(kind):
+                fail("traversal", case, src, "visitor hierarchy A<-B<-C, instance of %s: visit_X interceptions differ from the methods its class defines/inherits (got %d calls, expected %d; first got %r, first expected %r)" % (cls.__name__, len(log), len(expected(kind)), log[:2], expected(kind)[:2]), "visitor-hierarchy")
     if not has_node_valued_attr(ast):
         for flags in ({}, {"attrnames": True, "nodenames": True, "showcoord": True}, {"showemptyattrs": False}, {"nodenames": True, "offset": 3}):
             buf = io.StringIO()
